@@ -968,7 +968,9 @@ class Interp:
         if spec is not None:
             return self._loop_with_invariant(st, it, env, spec[1])
         if hasattr(it, '_lazy_map') and hasattr(it, '_concrete_len') and not it._concrete_len():
-            return self._foreach(st, it, env)
+            total = getattr(getattr(it, 'selection', None), 'total', None)
+            if not (isinstance(total, int) and total <= 8):         # a short selection is unrolled (one path per possible length) instead
+                return self._foreach(st, it, env)
         for item in self.iterate(it):
             self.assign(st.target, item, env)
             try:
